@@ -751,6 +751,50 @@ def run_proxy_forwarded(k, acc):
                 acc.outcomes["proxy-forwarded/distinct"] += 1
 
 
+MAPPING_KWS = ("headers", "_proxy_headers")
+
+
+def _as_container(v, cont):
+    if cont == "hd":
+        from urllib3._collections import HTTPHeaderDict
+        return HTTPHeaderDict(v)
+    return dict(v)
+
+
+def run_mapping_pair(spec, acc):
+    """one ordered pair of contexts that give a mapping-valued keyword as a dict or as urllib3's own HTTPHeaderDict"""
+    from urllib3 import PoolManager
+    k, scheme, (c1, v1), (c2, v2) = spec["kw"], spec["scheme"], spec["first"], spec["second"]
+    acc.n += 1
+    acc.counters["mapping_type_pairs"] += 1
+    url = "%s://%s/x" % (scheme, HOST)
+    with warnings.catch_warnings():
+        warnings.simplefilter("ignore")
+        mgr = PoolManager()
+        p1 = mgr.connection_from_url(url, pool_kwargs={k: _as_container(value(k, v1), c1)})
+        p2 = mgr.connection_from_url(url, pool_kwargs={k: _as_container(value(k, v2), c2)})
+        got = dict(getattr(p2, "headers" if k == "headers" else "proxy_headers") or {})
+        mgr.clear()
+    sig = {"kw": k, "scheme": scheme, "values": [v1, v2], "containers": [c1, c2]}
+    if v1 != v2 and p1 is p2:
+        acc.violation("shared-pool", sig, spec, observed="one pool for %s=%s(%s) and %s=%s(%s)" % (k, c1, v1, k, c2, v2), expected="distinct pools")
+    elif v1 == v2 and c1 == c2 and p1 is not p2:
+        acc.violation("equal-settings-different-pools", sig, spec, observed="two pools for the same settings", expected="the cached pool")
+    elif got != dict(value(k, v2)):
+        acc.violation("readback", dict(sig, what="value-not-carried"), spec, observed=got, expected=dict(value(k, v2)))
+    else:
+        acc.outcomes["mapping-type/%s" % ("same" if p1 is p2 else "distinct")] += 1
+
+
+def run_mapping_types(acc):
+    forms = [(c, v) for c in ("dict", "hd") for v in ("A", "B")]
+    for k in MAPPING_KWS:
+        for scheme in ("http", "https"):
+            for first in forms:
+                for second in forms:
+                    run_mapping_pair({"kind": "maptype", "kw": k, "scheme": scheme, "first": list(first), "second": list(second)}, acc)
+
+
 def _nontrivial(seq):
     return any(c != seq[0] for c in seq[1:])
 
@@ -760,6 +804,9 @@ def _worker(task):
     kind = task[0]
     if kind == "pxkw":
         run_proxy_forwarded(task[1], acc)
+        return acc
+    if kind == "maptype":
+        run_mapping_types(acc)
         return acc
     if kind == "kw":
         _, scheme, k, base, via, d, n = task
@@ -799,6 +846,7 @@ def run(ctx):
                     tasks.append(("kw", s, k, base, via, d, 2))
     for k in u.keywords:
         tasks.append(("pxkw", k))
+    tasks.append(("maptype",))
     triples = ctx.thorough
     nloc = len(loc_calls(triples))
     for base, via in LOC_CONFIGS:
@@ -897,5 +945,8 @@ def run(ctx):
 def replay(case):
     acc = Acc()
     values()
+    if case.get("kind") == "maptype":
+        run_mapping_pair(case, acc)
+        return {"violations": acc.viol}
     res = run_sequence(case, acc)
     return {"trace": res["trace"], "outcome": res["outcome"], "violations": acc.viol}
